@@ -273,6 +273,7 @@ pub fn leaf(r: &mut Rng, all: bool) -> String {
     let stmts = pick_lines(r, all, &[
         "  dout <= reg.data when reg.valid = '1' else (others => '0');",
         "  wv_s <= f_inc(din) after 1 ns, f_inc(f_inc(din)) after 2 ns, din after 3 ns;",
+        "  xl : process\n    variable k : integer := 0;\n  begin\n    outer : loop\n      k := k + 1;\n      next outer when f_inc(din) = din;\n      exit outer when f_inc(f_inc(din)) = din or k > 3;\n    end loop outer;\n    wait until f_inc(din) = din for 1 ns;\n    assert f_inc(din) = din report \"x\" severity note;\n    wait;\n  end process xl;",
         "  wv2 : process\n  begin\n    wv_s <= transport f_inc(din) after 1 ns, f_inc(reg.data) after 2 ns;\n    wait on din;\n  end process;",
         "  with en select\n    vld <= reg.valid when '1',\n           '0' when others;",
         "  chk : assert DEPTH > 0 report \"bad depth \" & integer'image(DEPTH) severity failure;",
@@ -869,6 +870,8 @@ package zoo_pkg is
   function f_ovl(x : integer) return integer;
   function f_ovl(x : bit) return bit;
   function f_bool return boolean;
+  function f_cv(x : bit) return bit;
+  procedure p_cv(x : bit);
   type t_enum is (lit_a, lit_b, lit_c);
   subtype st_int is integer range 0 to 7;
   type t_rec is record
@@ -925,6 +928,8 @@ package body zoo_pkg is
   function f_ovl(x : integer) return integer is begin return x; end;
   function f_ovl(x : bit) return bit is begin return x; end;
   function f_bool return boolean is begin return false; end;
+  function f_cv(x : bit) return bit is begin return x; end;
+  procedure p_cv(x : bit) is begin null; end;
   type t_prot is protected body
     variable cnt : integer := 0;
     procedure m_inc is begin cnt := cnt + 1; end;
@@ -950,7 +955,7 @@ end context;
 
 /// names of declarations of every kind that are visible at the use sites
 pub const ZOO_NAMES: &[&str] = &[
-    "p_none", "p_def", "p_arg", "p_ovl", "f_none", "f_def", "f_arg", "f_imp", "f_ovl", "f_bool", "t_enum", "st_int", "t_rec", "t_arr", "t_uarr",
+    "p_none", "p_def", "p_arg", "p_ovl", "p_cv", "f_cv", "f_none", "f_def", "f_arg", "f_imp", "f_ovl", "f_bool", "t_enum", "st_int", "t_rec", "t_arr", "t_uarr",
     "t_phys", "t_acc", "t_file", "t_prot", "lit_a", "u_a", "u_b", "el", "c_int", "c_bool", "c_time", "c_rec", "c_arr", "c_enum", "c_def", "s_sig",
     "s_int", "sv_prot", "fl_file", "a_obj", "a_typ", "a_sub", "a_proc", "at_attr", "comp_c", "inner_pkg", "zoo_pkg", "lib", "work", "std", "zoo_leaf",
     "zoo_ent", "zoo_arch", "zoo_ctx", "lbl_proc", "lbl_blk", "lbl_inst", "lbl_loop", "lbl_gen", "v_int", "v_bool", "v_acc", "g_gen", "p_port", "m_inc",
@@ -973,6 +978,7 @@ pub const ZOO_SITES: &[(&str, &str, &str)] = &[
     ("d", "  constant k_call : integer := f_arg(@);", "c_int"),
     ("d", "  constant k_call2 : integer := f_arg(x => @);", "c_int"),
     ("d", "  constant k_call3 : integer := f_arg(@ => 1);", "x"),
+    ("d", "  constant k_call4 : integer := f_arg(@(x) => 1);", "f_arg"),
     ("d", "  constant k_fn : integer := @;", "f_none"),
     ("d", "  constant k_sel : integer := c_rec.@;", "el"),
     ("d", "  constant k_pre : integer := @.el;", "c_rec"),
@@ -1021,6 +1027,11 @@ pub const ZOO_SITES: &[(&str, &str, &str)] = &[
     ("c", "  lbl_i6 : comp_c port map (@ => s_sig);", "a"),
     ("c", "  lbl_i7 : entity work.zoo_gent generic map (g => @);", "c_int"),
     ("c", "  lbl_i8 : configuration work.@;", "zoo_cfg"),
+    ("c", "  lbl_i9 : comp_c port map (@(a) => s_sig);", "f_cv"),
+    ("c", "  lbl_i10 : comp_c port map (a => @(s_sig));", "f_cv"),
+    ("c", "  lbl_i11 : entity work.zoo_gent generic map (@(g) => 1);", "f_arg"),
+    ("c", "  lbl_i12 : entity work.zoo_gent generic map (g => @(1));", "f_arg"),
+    ("c", "  lbl_c3 : p_arg(@(x) => 1);", "f_arg"),
     ("c", "  @;", "p_none"),
     ("c", "  lbl_c2 : @(1);", "p_arg"),
     ("c", "  lbl_g1 : for gi in 0 to @ generate begin end generate;", "c_int"),
@@ -1063,6 +1074,12 @@ pub const ZOO_SITES: &[(&str, &str, &str)] = &[
     ("s", "    @;", "p_none"),
     ("s", "    @(1);", "p_arg"),
     ("s", "    p_arg(@);", "c_int"),
+    ("s", "    p_arg(@(x) => 1);", "f_arg"),
+    ("s", "    p_arg(x => @(1));", "f_arg"),
+    ("s", "    p_cv(@(x) => '1');", "f_cv"),
+    ("s", "    v_int := f_arg(@(x) => 1);", "f_arg"),
+    ("s", "    v_int := f_arg(x => @(1));", "f_arg"),
+    ("s", "    v_int := integer'(@(1));", "f_arg"),
     ("s", "    sv_prot.@;", "m_inc"),
     ("s", "    v_int := sv_prot.@;", "m_get"),
     ("s", "    @.m_inc;", "sv_prot"),
@@ -1115,7 +1132,7 @@ pub fn zoo_uses(names: &[&str]) -> (String, Vec<usize>) {
 
 /// one name per kind: the per-site sweep of the quick tier uses these, the thorough tier all of ZOO_NAMES
 pub const ZOO_CORE: &[&str] = &[
-    "p_none", "p_def", "p_arg", "p_ovl", "f_none", "f_arg", "f_ovl", "t_enum", "st_int", "t_rec", "t_prot", "lit_a", "u_a", "el", "c_int", "c_rec",
+    "p_none", "p_def", "p_arg", "p_cv", "p_ovl", "f_none", "f_arg", "f_cv", "f_ovl", "t_enum", "st_int", "t_rec", "t_prot", "lit_a", "u_a", "el", "c_int", "c_rec",
     "s_sig", "sv_prot", "fl_file", "a_obj", "a_typ", "a_sub", "a_proc", "at_attr", "comp_c", "inner_pkg", "zoo_pkg", "lib", "zoo_ent", "zoo_arch",
     "lbl_proc", "lbl_loop", "v_int", "undefined_name",
 ];
